@@ -25,6 +25,15 @@ namespace vf::env {
       constexpr std::size_t lane_base = std::size_t(1) << 32;      // the lanes of the alternating personality start 4 GiB into the arena
       char* lane_cur[3] = { nullptr, nullptr, nullptr };
       int lane_next = 0;
+      // Survivors.  arena_reset() forgets what was allocated since the last reset -- which is only sound if nothing of it is
+      // still in use.  The library may legitimately keep something for the rest of the process (an immutable function-local
+      // static table built on first use): blocks that are still live at a reset are therefore never handed out again.  The
+      // floors below are where each region restarts; they move past the survivors, once, when some are found.
+      char* floor_lo = nullptr;                 // ascending region restarts here (initially arena_lo)
+      char* floor_hi = nullptr;                 // descending region restarts here (initially arena_hi)
+      char* lane_floor[3] = { nullptr, nullptr, nullptr };
+      long long arena_live = 0;                 // blocks taken from the arena since the last reset and not given back yet
+      long long pinned_resets = 0;
       Alloc mode = Alloc::Malloc;
       Hash hash_mode = Hash::Real;
       long long n_hash = 0;
@@ -71,13 +80,26 @@ namespace vf::env {
          }
          arena_lo = static_cast<char*>(p);
          arena_hi = arena_lo + arena_size;
-         cur_lo = arena_lo;
-         cur_hi = arena_hi;
+         cur_lo = floor_lo = arena_lo;
+         cur_hi = floor_hi = arena_hi;
+         for (int l = 0; l < 3; ++l) lane_floor[l] = arena_lo + lane_base + (std::size_t(3) << 29) * std::size_t(l);
       }
 
       inline bool in_arena(const void* p)
       {
          return arena_lo != nullptr and p >= arena_lo and p < arena_hi;
+      }
+
+      // a block of the arena that lies below a floor survived an earlier reset: it is no longer counted
+      inline bool pinned(const void* q)
+      {
+         const char* p = static_cast<const char*>(q);
+         if (p < floor_lo or p >= floor_hi) return true;
+         for (int l = 0; l < 3; ++l) {
+            const char* lo = arena_lo + lane_base + (std::size_t(3) << 29) * std::size_t(l);
+            if (p >= lo and p < lo + (std::size_t(3) << 29)) return p < lane_floor[l];
+         }
+         return false;
       }
 
       void* arena_take(std::size_t n, std::size_t align)
@@ -86,6 +108,7 @@ namespace vf::env {
          if (align < 16) align = 16;
          n = (n + align - 1) & ~(align - 1);
          if (n == 0) n = align;
+         ++arena_live;
          if (mode == Alloc::Alternating) {
             // three lanes 1.5 GiB apart, served round-robin: consecutive nodes a < b < c with b - a and c - b below 2^31 but
             // c - a above it (an address difference narrowed to 32 bits makes the order cyclic); every pair of consecutive
@@ -93,7 +116,7 @@ namespace vf::env {
             static_assert(arena_size >= (std::size_t(9) << 29));
             const int l = lane_next;
             lane_next = (lane_next + 1) % 3;
-            if (lane_cur[l] == nullptr) lane_cur[l] = arena_lo + lane_base + (std::size_t(3) << 29) * std::size_t(l);
+            if (lane_cur[l] == nullptr) lane_cur[l] = lane_floor[l];
             auto a = (reinterpret_cast<std::uintptr_t>(lane_cur[l]) + align - 1) & ~(std::uintptr_t(align) - 1);
             if (a + n > reinterpret_cast<std::uintptr_t>(arena_lo) + lane_base + (std::size_t(3) << 29) * std::size_t(l + 1)) { std::fprintf(stderr, "envctl: arena lane exhausted\n"); std::abort(); }
             lane_cur[l] = reinterpret_cast<char*>(a) + n;
@@ -142,7 +165,7 @@ namespace vf::env {
          ++st.deletes;
          --st.live_blocks;
          if (tracking and not tab_erase(p)) ++st.bad_deletes;
-         if (in_arena(p)) return;
+         if (in_arena(p)) { if (not pinned(p)) --arena_live; return; }
          st.live_bytes -= malloc_usable_size(p);
          std::free(p);
       }
@@ -174,18 +197,39 @@ namespace vf::env {
    void arena_reset()
    {
       if (arena_lo == nullptr) return;
+      if (arena_live > 0) {
+         // something allocated since the last reset is still alive (see "Survivors" above): keep it -- every region restarts
+         // behind what it has handed out so far
+         floor_lo = cur_lo;
+         floor_hi = cur_hi;
+         for (int l = 0; l < 3; ++l) if (lane_cur[l] != nullptr) lane_floor[l] = lane_cur[l];
+         ++pinned_resets;
+      }
+      arena_live = 0;
       // Give the touched pages back so that long enumerations do not accumulate resident memory.
-      if (cur_lo - arena_lo > (64 << 20)) madvise(arena_lo, cur_lo - arena_lo, MADV_DONTNEED);
-      if (arena_hi - cur_hi > (64 << 20)) madvise(cur_hi, arena_hi - cur_hi, MADV_DONTNEED);
+      auto drop = [](char* a, char* b) {       // whole pages strictly inside [a, b): nothing outside the range is touched
+         auto lo = (reinterpret_cast<std::uintptr_t>(a) + 4095) & ~std::uintptr_t(4095);
+         auto hi = reinterpret_cast<std::uintptr_t>(b) & ~std::uintptr_t(4095);
+         if (hi > lo and hi - lo > (std::uintptr_t(64) << 20)) madvise(reinterpret_cast<void*>(lo), hi - lo, MADV_DONTNEED);
+      };
+      drop(floor_lo, cur_lo);
+      drop(cur_hi, floor_hi);
       for (int l = 0; l < 3; ++l) {
-         char* lo = arena_lo + lane_base + (std::size_t(3) << 29) * std::size_t(l);
-         if (lane_cur[l] != nullptr and lane_cur[l] - lo > (64 << 20)) madvise(lo, std::size_t(lane_cur[l] - lo), MADV_DONTNEED);
+         if (lane_cur[l] != nullptr) drop(lane_floor[l], lane_cur[l]);
          lane_cur[l] = nullptr;
       }
       lane_next = 0;
-      cur_lo = arena_lo;
-      cur_hi = arena_hi;
+      cur_lo = floor_lo;
+      cur_hi = floor_hi;
       alt_toggle = false;
+   }
+
+   long long survivors_pinned() { return pinned_resets; }
+
+   namespace {
+      struct Epilogue {
+         ~Epilogue() { if (pinned_resets > 0) std::fprintf(stderr, "envctl: %lld arena reset(s) found blocks still alive and kept them\n", pinned_resets); }
+      } epilogue;
    }
 
    Stats stats() { return st; }
